@@ -2,7 +2,8 @@
 # tools/run_all.sh [quick|thorough] — run every registered check once against /repo, one line per check.
 tier=${1:-quick}
 cd /verif
-for id in $(python3 -c "import json; print(' '.join(c['property_id'] for c in json.load(open('MANIFEST.json'))['checks']))"); do
+# the registered checks of the listed properties, then the extensions beyond them (X.., DESIGN.md 11.5)
+for id in $(python3 -c "import json; print(' '.join(c['property_id'] for c in json.load(open('MANIFEST.json'))['checks']))") X01; do
   t0=$(date +%s)
   timeout 3600 ./check "$id" --tier "$tier" > /tmp/run_all_$id.log 2>&1; rc=$?
   t1=$(date +%s)
